@@ -360,7 +360,7 @@ def bounded(tier, seed):
     kinds = ['call', 'ret', 'sig']
     base = [[('call', 1)], [('ret', 1), ('sig', 2)], [('call', 0), ('call', 3)], [('sig', 2), ('call', 0), ('ret', 1), ('call', 1)]]
     rnd = random.Random(seed)
-    for _ in range(30 if tier == 'thorough' else 6):
+    for _ in range(300 if tier == 'thorough' else 6):
         base.append([(rnd.choice(kinds), rnd.randrange(0, 4)) for _ in range(rnd.randrange(2, 7))])
     # a burst of small messages whose descriptors are all reported before the first byte is decoded (one large read):
     # more descriptors outstanding at once than any single message may carry
@@ -405,7 +405,7 @@ def replay(function, clause, model):
 def run_bounded(tier, seed):
     n, f, inp = bounded(tier, seed)
     return {'tool': 'message sequences with 0-3 descriptors x arrival lead x read size through the real sender/receiver protocol objects',
-            'bound': '%d message sequences x 4 arrival leads x %d read sizes; callRemote fresh-list case' % (34 if tier == 'thorough' else 10, 6 if tier == 'thorough' else 3),
+            'bound': '%d message sequences x 4 arrival leads x %d read sizes; callRemote fresh-list case' % (304 if tier == 'thorough' else 10, 6 if tier == 'thorough' else 3),
             'evaluations': n, 'failures': [] if not f else [{'function': 'txdbus.protocol', 'clause': 'descriptors', 'input': inp, 'detail': f}]}
 
 
